@@ -257,7 +257,8 @@ where
 
         if let Some(word) = is_same(pixel) {
             self.send_word(word)?;
-            for _ in 1..(count * N as u32) {
+            // count * N can exceed u32::MAX
+            for _ in 1..(u64::from(count) * N as u64) {
                 self.wr.set_low().map_err(ParallelError::Wr)?;
                 self.wr.set_high().map_err(ParallelError::Wr)?;
             }
